@@ -17,9 +17,9 @@ import (
 func init() { suites["c09"] = c09 }
 
 type secOp struct {
-	name string    // operationId
-	reqs [][]int   // alternatives over global scheme numbers; nil ⇒ inherit the global requirement
-	none bool      // explicit `security: []`
+	name string  // operationId
+	reqs [][]int // alternatives over global scheme numbers; nil ⇒ inherit the global requirement
+	none bool    // explicit `security: []`
 }
 
 type secSpec struct {
@@ -256,7 +256,7 @@ func c09(r *lp.Run) {
 
 func c09Op(r *lp.Run, rng *lp.Rand, drv *gc.Driver, spec secSpec, pkg *gc.Pkg, op secOp) {
 	// find the IR operation
-	var irSecs []string   // scheme type names in index order
+	var irSecs []string // scheme type names in index order
 	var irMasks [][]byte
 	found := false
 	for _, o := range pkg.Gen.Operations() {
